@@ -50,13 +50,14 @@ class Concretisation(object):
         return half_units * self.dr / 2.0
 
     def describe(self):
-        return {'dr': self.dr_s, 'dr_is_int': self.int_dr, 'eps': self.eps, 'alpha': self.alpha, 'high': self.high, 'sigma_style': self.style}
+        return {'dr': self.dr_s, 'dr_is_int': self.int_dr, 'eps': float(self.eps), 'alpha': float(self.alpha), 'high': float(self.high),
+                'parameter_types': [type(self.eps).__name__, type(self.alpha).__name__, type(self.high).__name__], 'sigma_style': self.style}
 
 
 def make_pot(kind, c):
     import pyPRISM.potential as P
     if kind == 'HardSphere':
-        return P.HardSphere(high_value=c.high) if c.high != 1e6 else P.HardSphere()
+        return P.HardSphere(high_value=c.high) if (c.high != 1e6 or not isinstance(c.high, float)) else P.HardSphere()
     if kind == 'Exponential':
         return P.Exponential(epsilon=c.eps, alpha=c.alpha, high_value=c.high)
     if kind == 'HardCoreLennardJones':
@@ -331,7 +332,10 @@ def concretisations(thorough):
           Concretisation('tenth', '0.1', 0.75, 0.5, 1e6, 'literal'),
           Concretisation('tenth.computed', '0.1', -0.5, 1.25, 1e6, 'computed'),
           Concretisation('0.05', '0.05', 2.0, 0.3, 1e3, 'literal'),
-          Concretisation('int.dr', '1', 0.6, 0.9, 1e6, 'literal', int_dr=True)]
+          Concretisation('int.dr', '1', 0.6, 0.9, 1e6, 'literal', int_dr=True),
+          # parameters typed as integers (Python int / numpy integer): the value, not the type, defines the potential
+          Concretisation('int.params', '0.5', 2, 3, 1000000, 'literal'),
+          Concretisation('npint.params', '0.25', np.int64(1), np.int64(2), np.int64(1000000), 'computed')]
     if thorough:
         cs += [Concretisation('0.075', '0.075', 1.0, 1.0, 1e6, 'literal'),
                Concretisation('0.02', '0.02', 0.25, 0.1, 1e6, 'computed'),
